@@ -101,6 +101,13 @@ check(
     "Footers are broadly mishandled by the tree (P20, P49), as are `:rtype:` lines (P50), text without trailing newline (P48), indented numpydoc (P25) and the exact section/footer boundary (P51): those classes relax the re-parse clauses only; the tiling and header clauses are never relaxed.",
 )
 
+check(
+    "C14",
+    "Hypothesis over four input families (grammar docstrings, hand-shaped defs, emitter output in 8 formats, token soups); shape-validator oracle plus signature-coverage oracle with the ast signature as reference",
+    "Generated-input search over parser inputs; every returned interface description is validated against the documented shape (keys, name constraints, uniqueness, key set of each entry, `typ` parses as an expression, string descriptions, single return_type entry), and for function parsers every positional-or-keyword / keyword-only parameter of the signature must appear exactly once.",
+    "Exceptions are acceptable outcomes except on input the emitters themselves produced. Relaxed: P30 (ill-formed text: empty names / unparseable types), P35 (*args, **kwargs, positional-only), P29 (sqlalchemy None / server_default keys), P20/P49 (footer garbage in typ), P22.",
+)
+
 NOT_YET = "check not built yet in this round (work in progress; DESIGN.md section 4 has the plan)"
 
 
